@@ -119,6 +119,75 @@ theorem dedup_groups_one_per_key (gs : List Group) :
     (∀ o ∈ out, ∀ r ∈ o.rules, ∃ g ∈ gs, g.key = o.key ∧ r ∈ g.rules) :=
   dedupGroups_spec gs
 
+theorem key_with_rules (g : Group) (rs : List Rule) : ({ g with rules := rs } : Group).key = g.key := rfl
+
+/-- what `filterRulesByMatchers` (repaired) leaves, with or without selector sets -/
+theorem filterGroups_sound (sets : List (List Matcher)) (gs : List Group) (gf : Group)
+    (h : gf ∈ filterGroups true true sets gs) :
+    ∃ g ∈ gs, g.key = gf.key ∧ ∀ r ∈ gf.rules, r ∈ g.rules ∧ matchesOr sets r.labels = true := by
+  by_cases hs : sets = []
+  · subst hs
+    simp only [filterGroups, List.isEmpty_nil, if_true] at h
+    exact ⟨gf, h, rfl, fun r hr => ⟨hr, by simp [matchesOr, matchesAny]⟩⟩
+  · obtain ⟨_, g0, hg0, hf, hn, hr⟩ := (filterGroups_spec true true sets hs gs gf).mp h
+    refine ⟨g0, hg0, by simp [Group.key, hf, hn], ?_⟩
+    intro r hrm
+    rw [hr] at hrm
+    have := List.mem_filter.mp hrm
+    exact ⟨this.1, by simpa [codeMatches, matchesOr] using this.2⟩
+
+theorem filterGroups_complete (sets : List (List Matcher)) (gs : List Group) (g : Group) (hg : g ∈ gs)
+    (r : Rule) (hr : r ∈ g.rules) (hm : matchesOr sets r.labels = true) :
+    ∃ gf ∈ filterGroups true true sets gs, gf.key = g.key ∧ r ∈ gf.rules := by
+  by_cases hs : sets = []
+  · subst hs
+    simp only [filterGroups, List.isEmpty_nil, if_true]
+    exact ⟨g, hg, rfl, hr⟩
+  · have hin : r ∈ g.rules.filter (fun r => codeMatches true true sets r.labels) :=
+      List.mem_filter.mpr ⟨hr, by simpa [codeMatches, matchesOr] using hm⟩
+    refine ⟨{ g with rules := g.rules.filter (fun r => codeMatches true true sets r.labels) }, ?_, rfl, hin⟩
+    apply (filterGroups_spec true true sets hs gs _).mpr
+    refine ⟨?_, g, hg, rfl, rfl, rfl⟩
+    intro h0
+    simp only at h0
+    rw [h0] at hin
+    simp at hin
+
+/-- **The whole answer of the Rules API** (repaired filter): groups strictly sorted by key (one per
+    `file;name`), the rules of a group strictly sorted by `Rule.Compare` (one per rule identity);
+    every returned rule is an input rule of that group without its replica labels whose
+    non-templated labels satisfy all selectors of at least one set; and every such input rule is
+    represented in its group by a rule of the same identity that is at least as critical / recent. -/
+theorem C45_pipeline (repl : List String) (sets : List (List Matcher)) (gs : List Group) :
+    (rulesPipeline true true repl sets gs).Pairwise (fun a b => compare a.key b.key = .lt) ∧
+    (∀ o ∈ rulesPipeline true true repl sets gs, o.rules.Pairwise (fun a b => ruleCmp a b = .lt)) ∧
+    (∀ o ∈ rulesPipeline true true repl sets gs, ∀ r ∈ o.rules, ∃ g ∈ gs, g.key = o.key ∧
+        ∃ r0 ∈ g.rules, r = removeReplica repl r0 ∧ matchesOr sets r0.labels = true) ∧
+    (∀ g ∈ gs, ∀ r0 ∈ g.rules, matchesOr sets r0.labels = true →
+        ∃ o ∈ rulesPipeline true true repl sets gs, o.key = g.key ∧
+          ∃ r ∈ o.rules, sameRule r (removeReplica repl r0) = true ∧ worse r (removeReplica repl r0) = false) := by
+  obtain ⟨d1, d2, d3⟩ := dedupGroups_spec (filterGroups true true sets gs)
+  unfold rulesPipeline
+  refine ⟨?_, ?_, ?_, ?_⟩
+  · exact List.Pairwise.map _ (fun a b h => by simpa [key_with_rules] using h) d1
+  · intro o ho
+    obtain ⟨g', _, rfl⟩ := List.mem_map.mp ho
+    exact (dedupRules_spec repl g'.rules).1
+  · intro o ho r hr
+    obtain ⟨g', hg', rfl⟩ := List.mem_map.mp ho
+    simp only at hr
+    have hr1 := (dedupRules_spec repl g'.rules).2.1 r hr
+    obtain ⟨r0, hr0, rfl⟩ := List.mem_map.mp hr1
+    obtain ⟨gf, hgf, hkey, hmem⟩ := d3 g' hg' r0 hr0
+    obtain ⟨g, hg, hk2, hall⟩ := filterGroups_sound sets gs gf hgf
+    exact ⟨g, hg, by rw [hk2, hkey]; rfl, r0, (hall r0 hmem).1, rfl, (hall r0 hmem).2⟩
+  · intro g hg r0 hr0 hm
+    obtain ⟨gf, hgf, hk, hin⟩ := filterGroups_complete sets gs g hg r0 hr0 hm
+    obtain ⟨o', ho', hk', hsub⟩ := d2 gf hgf
+    obtain ⟨r, hr, hs⟩ := (dedupRules_spec repl o'.rules).2.2 r0 (hsub r0 hin)
+    exact ⟨{ o' with rules := dedupRules repl o'.rules }, List.mem_map.mpr ⟨o', ho', rfl⟩,
+      by rw [key_with_rules, hk', hk], r, hr, hs⟩
+
 /-- Regenerated obligations: the `return` statements of `rules.matches` in source order, and
     where `template.New("label")` is called (function body or the per-label closure) — they say the
     source has the repaired loop (`true` for no sets, `true` inside the loop over sets, `false` at
